@@ -12,15 +12,16 @@ NOT_APPLICABLE = {
 CHECKS = {
     'C19': dict(
         level='proof',
-        technique='deductive verification: pyvc VCs (loop invariants, least-fixpoint induction) discharged by z3; bounded exhaustive stand-in for find_all_paths/find_all_reachable',
+        technique='deductive verification: pyvc VCs (loop invariants, least-fixpoint induction, recursive contract for find_all_paths) discharged by z3 (cvc5 re-check and lean/Reach.lean in the thorough tier); bounded exhaustive stand-in for find_all_reachable and cross-check of all queries',
         text=("reachable, bi_reachable, connected, dfs/_dfs, find_all_bi_reachable, find_all_connected, none_reachable, "
-              "none_connected, find_sources, find_longest_paths(+exist) are proved for all graphs and vertices against "
+              "none_connected, find_sources, find_all_paths (exactly the simple paths that extend the given prefix: sound and "
+              "complete, partial correctness), find_longest_paths(+exist) are proved for all graphs and vertices against "
               "closure-based specifications (post-conditions are exact: iff / set equality), every obligation discharged by z3 "
-              "from the current source. find_all_paths and find_all_reachable are only checked by a bounded exhaustive "
-              "stand-in (all digraphs <= 3 vertices quick, <= 4 thorough) and are not counted as proved."),
+              "from the current source. find_all_reachable is only checked by a bounded exhaustive "
+              "stand-in (all digraphs <= 3 vertices quick, <= 4 thorough) and is not counted as proved. Every query, proved or not, is also compared with the reference on all small digraphs in both tiers (incl. a source vertex that is an equal but not identical object), and graph_utils must keep no module-level state."),
         note=("trusted: pyvc's Python-subset encoding, collection axioms, least-fixpoint induction schema, partial "
-              "correctness (termination not proved), abstract vertex equality; find_longest_paths relative to "
-              "find_all_paths' unverified result"),
+              "correctness (termination not proved), abstract vertex equality (identity vs equality of vertex objects is "
+              "only covered by the bounded part)"),
         design='DESIGN.md section 4 (C19)'),
     'C16': dict(
         level='proof',
@@ -34,7 +35,7 @@ CHECKS = {
               "invariant, the statement holds after any history. The two worklist traversals (_get_declarations_glob, "
               "get_namespaces_decls) are proved sound and complete w.r.t. least-fixpoint namespace reachability using a ghost "
               "set of processed namespaces (termination not proved). Random operation histories against a reference "
-              "model are run as engine cross-check only."),
+              "model are run as engine cross-check only. The bounded part also uses real IR type parameters (same name, different bounds) as keys of the reverse index."),
         note=("trusted: pyvc encoding; abstract declaration equality; callers do not mutate returned dictionaries; "
               "termination of the worklist loops; get_decl_type not under contract"),
         design='DESIGN.md section 4 (C16)'),
@@ -48,7 +49,7 @@ CHECKS = {
               "other path is touched; every shutil.copytree/rmtree precondition holds (no FileExistsError). update_stats, "
               "get_batches, stop_condition are proved exact; the batch loop _run keeps passed+failed equal to the number of "
               "programs handed to the generator, passes disjoint pid ranges, and process_res (sequential) maps pids to results "
-              "and records exactly the reported programs in STATS['faults'] / faults.json."),
+              "and records exactly the reported programs in STATS['faults'] / faults.json. Also under contract: the pool callback (the batch size handed to update_stats) and src.args.validate_args (returns only if no session directory of that name exists and at most one stop condition is set)."),
         note=("sequential mode only (run_parallel is outside this family); trusted external contracts for os.path/shutil/"
               "time/run_command, gen_program (assumed behaviour), save_stats, and C14's analyze_compiler_output; sys.exit under "
               "--debug is abrupt termination"),
@@ -65,7 +66,7 @@ CHECKS = {
               "definition of 'occurs'; the shallow check of the unchanged tree was a genuine defect, repaired). A reversed "
               "variance, a skipped type argument, an ignored bound or a name-based constructor comparison leaves a return-True "
               "path without an applicable rule. Exactness / reflexivity / transitivity / bottom on ground class types is NOT "
-              "proved: bounded exhaustive comparison on a 155-type universe."),
+              "proved: bounded exhaustive comparison on a 155-type universe. Type identity (the __eq__ / __hash__ overrides) is under contract too; the bounded part also edits the hierarchy behind a generic supertype and re-queries."),
         note=("trusted: Horn rules are the declarative relation; PyEq (__eq__) as type identity; Valid(t) well-formedness as "
               "precondition; same-constructor-same-arity; ParameterizedType.is_assignable (Java primitive arrays) and the "
               "__eq__ overrides not under contract"),
@@ -80,7 +81,7 @@ CHECKS = {
               "ParameterizedType with exactly the given arguments, the constructor's name, as many supertypes as declared and a "
               "private constructor copy whose supertypes are the declared ones. The structural clauses (every occurrence "
               "substituted transitively, empty map gives an equal type, ground map leaves no type variable) are NOT proved: "
-              "bounded comparison with an independent reference substitution on 5 class tables."),
+              "bounded comparison with an independent reference substitution on 5 class tables. Also under contract: ParameterizedType.to_variance_free (frame), the five has_type_variables overrides (equal to a recursive definition) and type identity; the bounded part includes a diamond hierarchy, star projections and a type flagged can_infer_type_args."),
         note=("trusted: deepcopy contract (fresh, same class/name/arity, touches nothing old), allocation model and heap "
               "closure, purity of cond, Valid(t) preconditions; type-map lookups modelled by identity of the key"),
         design='DESIGN.md section 4 (C07)'),
@@ -123,7 +124,7 @@ CHECKS = {
         text=("NOT proved (pickle is an external library; no contract within reach of the verifier states its behaviour). For a "
               "fixed seed list x 4 languages x mutation lineages the real save_program / ProgramProcessor replay path is run and "
               "the read-back is compared with the original: isomorphic object graph, same symbol-table answers, byte-identical "
-              "text in all four languages, same mutation outcome/result/text under the same RNG state, stable re-dump."),
+              "text in all four languages, same mutation outcome/result/text under the same RNG state, stable re-dump. Type identity (__eq__ / __hash__ of the IR types, which survive pickling only if they are functions of pickled parts) is under a deductive contract; nothing else is."),
         note="bounded: time-budgeted task list (quick 32 tasks, thorough 768); one benign known finding (reverse index of re-hashed type parameters)",
         design='DESIGN.md section 4 (C13)'),
     'C14': dict(
@@ -135,7 +136,7 @@ CHECKS = {
               "its message in order, no file without a match, nothing dropped or moved; Groovy's stack-overflow rule; the "
               "get_filename / get_error_msg overrides. What the four regular expressions match (warnings, notes, summaries, "
               "quoted lines, crash traces) is NOT proved: rendered outputs from record lists for four compilers plus real javac "
-              "runs."),
+              "runs. utils.path2set (one filter pattern per stripped line of the file) is under contract; bounded additions: pattern files with blanks, the same compiler object on two batches."),
         note=("trusted: re.search/sub/findall as deterministic functions; kotlinc/groovyc/scalac output formats are assumptions "
               "of the harness (only javac is installed and validated); known findings listed for message-only filter "
               "patterns and three regex corner cases; one output shape with unvalidated grammar is not judged"),
@@ -148,7 +149,7 @@ CHECKS = {
               "contract (C06) does not cover _construct_related_types. The bounded check enumerates, for a family of class tables "
               "(plain, generic, variance, nested, bounds, dependent bounds) x every query type x every flag combination, ALL "
               "random-choice paths of the real search, and judges every returned type with a reference relation written from the "
-              "property text. 12 failing input classes were repaired in /repo (four fix commits); what remains are two families of input classes recorded as lists of concrete inputs in known_findings.json."),
+              "property text. 12 failing input classes were repaired in /repo (four fix commits); what remains are two families of input classes recorded as lists of concrete inputs in known_findings.json. Type identity (__eq__ / __hash__ of the IR types) is under a deductive contract; nothing else is."),
         note="bounded: stated class-table family; random choices enumerated exhaustively per query up to a path budget; known findings pinned to 16 concrete inputs (re-instantiation not seen by the IR's own is_subtype; same-class variation under projections / dependent bounds); the random class tables are a fixed list",
         design='DESIGN.md section 4 (C09)'),
     'C08': dict(
@@ -163,7 +164,7 @@ CHECKS = {
               "Function* rule as choices that forbid every projection; _get_available_types filters and boxes. The clauses that "
               "depend on the subtype search (argument within the substituted bound, one argument per parameter, requested "
               "assignments kept) are bounded only: 1 defect repaired (shadowed loop index, found by the proof obligation), 6 "
-              "input classes recorded as known findings."),
+              "input classes recorded as known findings. The two boolean switches reach cfg for every flag combination (symbolic execution of the configuration block of src/args.py, z3); the bounded part also runs the substitution reference of C07."),
         note=("trusted: slice-mode havoc of the statements outside the subset (listed in evidence), TypeParameter.has_bound_of, "
               "random.choice, immutability of cfg and Variance constants; bound / kept / arity clauses are bounded (synthetic "
               "declarations up to 4 parameters x pools x requests x variance maps + generator calls for a seed list)"),
@@ -180,7 +181,7 @@ CHECKS = {
               "proved: Kotlin / Scala use save-and-restore instead of reset, and writes performed by IR helper methods the "
               "translators call (the defect repaired in /repo was such a write) -- both are covered by the bounded part: "
               "byte-identical text and an unchanged program over histories of translations of generated, erased, overwritten "
-              "and hand-built programs."),
+              "and hand-built programs. A hidden-state census (no module-level container written from a function, no mutable default argument written through) covers the translators and the IR modules they call."),
         note=("trusted: the syntactic attribute-change and aliasing analysis (module-level containers tracked, attribute values "
               "aliased between methods not); callee chains into src/ir are bounded only; string building of the 31 visit "
               "methods per translator is not under contract"),
@@ -226,7 +227,7 @@ CHECKS = {
               "None dereference) for the functions under deductive contract in C19/C16/C15/C06/C07/C14, but that is a small "
               "part of the pipeline. The bounded check runs every stage of the real pipeline per input and reports the "
               "innermost repository frame of any exception, work-budget overruns, and nesting beyond f(d)=2*max(2d+1,d+3). "
-              "One genuine defect found and repaired in /repo (TypeParameter.has_bound_of dereferenced a None factory)."),
+              "One genuine defect found and repaired in /repo (TypeParameter.has_bound_of dereferenced a None factory). The try/except shape of hephaestus.gen_program (every stage inside the try; the handler catches Exception, never re-raises, returns a failed ProgramRes) is checked syntactically; bounded additions: nesting of Program.get_types() on an all-generic program, reset_word_pool restores the identifier pool."),
         note="bounded: quick 73 inputs (4 languages x seeds 1-8, depth limits 1-4, 2 switch combinations, max_combinations 1-2, timeout 0); thorough 532 inputs (50 seeds per language, depth limits up to 8, 15 switch combinations); termination is a budget, never proved",
         design='DESIGN.md section 4 (C18)'),
 }
